@@ -35,7 +35,7 @@ CLAIMED = {
     ),
     "C04": dict(
         engine="lattice", category="exploration", design_ref="DESIGN.md section 5 (C04)",
-        technique="complete enumeration of constraint x metric x density convention x solver x solver-kwargs x inner-step x step-size lattice with manifold monitors; direct solver calls judged by residual and Lagrange-form oracle",
+        technique="complete enumeration of constraint x metric x density convention x solver x solver-kwargs x inner-step x step-size lattice with manifold monitors; direct solver calls judged by residual and Lagrange-form oracle; tolerance ladder enumerating every stopping point of the projection iteration for both documented norms",
         text="Constraint residual and cotangent condition are monitored after every successful constrained step (3 consecutive steps), every sampled momentum and every projection, for all three projection solvers, inner step counts, solver kwargs (iteration / line-search caps) and step sizes incl. ones that provoke failure; direct solver calls from states after an unconstrained h2_flow (also far off the manifold) must either raise ConvergenceError or return a state whose residual is below tolerance and whose position/momentum correction has Lagrange-multiplier form (dense least squares).",
         note="Start points are put on the manifold by harness code; lattice states only.",
     ),
